@@ -1,5 +1,6 @@
 //@ property: C08 C10
 //@ unit: c08_locktime tier=quick
+//@ paired: verif_c08_locktime::locktime_bip370
 //@ clause: BIP-370 lock-time selection for any number of inputs: fallback (or 0) when no input constrains; else max height if every constraining input supports height (height preferred when both kinds possible); else max time if every constraining input supports time; else Err(LocktimeConflict); never panics (both unreachable!() arms proved unreachable)
 use vstd::prelude::*;
 verus! {
